@@ -478,6 +478,8 @@ def rule_attach(ctx):
 # plain handlers run before any state changes, a vetoed write changes nothing: decided on constructed switch vectors
 IMPORTS = [('C07', 'C07.DISABLED'), ('C07', 'C07.BRANCH'), ('C06', 'C06.KEY'), ('C09', 'C09.VETO')]
 
+EXPLANATION = EXPLANATION + ' C14.NOWRITE also follows every other driver-side assignment route - each property setter of the element and vector classes (bool_value, selected_value(s), state_, enabled, ...) through whatever it calls inside the property package: none calls set_value or constructs a Write.'
+
 RULES = [
     ("C14.WRITE", rule_write, "set_value: one Write(self, value) raised before any store; assignment iff not vetoed"),
     ("C14.SETTER", rule_setter, "value setter: checks before store, one publication after, Change(prev, stored) iff different"),
